@@ -97,6 +97,14 @@ v('C07', 'fire', KA, 'cho_solve((L, True), HP', 'cho_solve((L, False), HP')
 v('C07', 'fire', KA, 'S = HP @ H.T + R', 'S = HP @ H.T')
 v('C07 C19', 'fire', KA, 'K = cho_solve((L, True), HP, overwrite_b=True).T', 'K = cho_solve((L, True), P, overwrite_b=True).T')
 v('C07', 'silent', KA, 'U = np.eye(len(x)) - K.dot(H)', 'U = np.identity(len(x)) - K @ H')
+v('C10 C11', 'fire', 'filters.py', """    measurement_times = np.hstack([np.empty(0)] + [
+        np.asarray(measurement.data.index) for measurement in measurements])
+    measurement_times = np.sort(np.unique(measurement_times))
+
+    start_time = times[0]""", """    measurement_times = np.sort(np.hstack([np.empty(0)] + [
+        np.asarray(measurement.data.index) for measurement in measurements]))
+
+    start_time = times[0]""", 'seeded C11 round 3 (= C10 round 1 in kind): feedforward epoch list not de-duplicated')
 v('C11 C12', 'fire', 'filters.py', '.mean([1 - alpha, alpha])', '.mean([alpha, 1 - alpha])', 'interpolated attitude with swapped weights')
 v('C11 C12', 'fire', 'filters.py', '(1 - alpha) * first[LLA_COLS] + alpha * second[LLA_COLS]', 'alpha * first[LLA_COLS] + (1 - alpha) * second[LLA_COLS]', 'interpolated position with swapped weights')
 v('C11 C12', 'fire', 'filters.py', '(1 - alpha) * first[VEL_COLS] + alpha * second[VEL_COLS]', '(1 - alpha) * first[VEL_COLS] + alpha * second[LLA_COLS]', 'interpolated velocity mixes differently labelled selections')
@@ -419,7 +427,7 @@ v('C12 C08 C11', 'fire', F, '        time_delta = integrator.get_time() - time',
 v('C11', 'fire', F, 'q = np.hstack((gyro_model.v, accel_model.v, gyro_model.q, accel_model.q))', 'q = np.hstack((gyro_model.v, gyro_model.q, accel_model.v, accel_model.q))', 'seeded C11 (same as an own variant)')
 v('C11', 'fire', F, 'increments_batch = increments.loc[np.nextafter(time, next_time) : next_time]', 'increments_batch = increments.iloc[index : next_index]', 'seeded C11 round 2: trajectory cursor slices the increments table')
 v('C12', 'fire', F, "next_increment_index = np.searchsorted(increments.index, next_time,", "next_increment_index = np.searchsorted(integrator.trajectory.index, next_time,", 'cursor from the trajectory axis (one extra leading row) slices the increments')
-v('C11 C12', 'silent', F, '    times = trajectory_nominal.index\n', '    times = np.asarray(trajectory_nominal.index)\n', 'axis alias through asarray')
+v('C11 C12 C10 C08', 'silent', F, '    times = trajectory_nominal.index\n', '    times = np.asarray(trajectory_nominal.index)\n', 'axis alias through asarray')
 
 
 v('C14', 'fire', I, '        result = util.mv_prod(self.transform, readings)', '        result = readings.values @ self.transform', 'seeded C14: simulator applies the transposed transform')
